@@ -75,6 +75,13 @@ pub struct U2 {
     f: F,
 }
 
+/// a file-mate of U2 whose TypeScript name differs from it in case only (the order of declarations in a shared file is by bytes)
+#[derive(TS)]
+#[ts(export_to = "shared.ts", rename = "u2")]
+pub struct U2low {
+    x: i32,
+}
+
 /// climbs above the file-system root
 #[derive(TS)]
 #[ts(export_to = "../../../../../../../../../../../../../../../../up.ts")]
@@ -239,7 +246,7 @@ macro_rules! universe {
 
 universe!(
     A, B, C, D, E, F, G<i32>, G<C, A>, G<ts_rs::Dummy, ts_rs::Dummy>, U1, U2, Up, H, C2, Up4, H4, Esc, EscSib,
-    Vec<A>, Option<B>, i32, (C, D), std::collections::HashMap<String, E>, Box<A>,
+    Vec<A>, Option<B>, i32, (C, D), std::collections::HashMap<String, E>, Box<A>, U2low,
 );
 
 fn snapshot(root: &Path, rel: &Path, out: &mut Vec<String>) {
